@@ -71,6 +71,10 @@ func (e *FnEnc) call(v ssa.Value, c *ssa.CallCommon, in ssa.Instruction) {
 			e.contractCall(v, con, nil, append([]Val{recv}, args...), c.Signature(), in)
 			return
 		}
+		if e.W.IsPure(key) && v != nil {
+			e.pureCall(v, key, append([]Val{recv}, args...))
+			return
+		}
 		e.havocCall(v, key, append([]Val{recv}, args...), in)
 		return
 	}
@@ -195,6 +199,7 @@ func (e *FnEnc) pureCall(v ssa.Value, name string, args []Val) {
 		sorts = append(sorts, e.sorts().SortOf(a.Ty))
 		ts = append(ts, a.T)
 	}
+	e.W.pureResultSort[name] = e.sorts().SortOf(v.Type())
 	x := e.setVal(v, e.W.UF("pure."+mangle(name), sorts, e.sorts().SortOf(v.Type()), ts...))
 	e.assumeValid(x)
 	e.note("A6 pure function (uninterpreted): " + name)
